@@ -137,9 +137,10 @@ func (p *pod) GetQOSClass() v1.PodQOSClass {
 }
 
 func (p *pod) goFetchPodResources(ch <-chan *podresapi.PodResources) {
+	p.podResCh = ch
+	p.waitResCh = make(chan struct{})
+
 	go func() {
-		p.podResCh = ch
-		p.waitResCh = make(chan struct{})
 		defer close(p.waitResCh)
 
 		if p.podResCh != nil {
